@@ -1,7 +1,7 @@
 (** Executable comparison used by the C16 correspondence for [model/RArgsShape.v] §2.
 
     [mcase]: a forest of render classes whose class statements list plain mix-in classes
-    before / after the render base; observed for every class [t]: [t.__mro__] without
+    before / after the render base or between it and a second, redundant render base; observed for every class [t]: [t.__mro__] without
     [object] ([(c, 0)] = render class [c], [(c, S j)] = the j-th mix-in of the statement of
     [c]), the owner classes of the namespaces [RenderArgs(t)] holds (iteration order), and for
     every owner class [a] the outcome of [RenderArgs(t, a.Args(...))]. *)
@@ -14,6 +14,8 @@ Record mcase := {
   mc_own : list bool;
   mc_before : list nat;
   mc_after : list nat;
+  mc_mid : list nat;           (* mix-ins between the render base and the redundant base mc_g *)
+  mc_g : list nat;
   mc_mro : list (list (nat * nat));
   mc_held : list (list nat);
   mc_acc : list (list nat)     (* per t, per a: 0 = accepted and held; S k = rejected, error code k;
@@ -22,7 +24,7 @@ Record mcase := {
 
 Definition mforest (c : mcase) : forest :=
   mkF (mc_par c) (map (fun b : bool => if b then Some [0%Z] else None) (mc_own c)).
-Definition mmixes (c : mcase) : mixes := mk_mixes (mc_before c) (mc_after c).
+Definition mmixes (c : mcase) : mixes := mk_mixes (mc_before c) (mc_after c) (mc_mid c) (mc_g c).
 
 Definition enc (i : mitem) : nat * nat :=
   match i with MR c => (c, 0) | MX c j => (c, S j) end.
